@@ -97,7 +97,20 @@ def targets(cols, tier):
     return out
 
 
+_OPS = {}
+
+
+def shared_op(term):
+    """One operation object (hence one predicate / expression object) per term for the whole sweep: commute() is asked
+    about the same objects many times, so a report must not depend on what was asked before."""
+    key = repr(term)
+    if key not in _OPS:
+        _OPS[key] = enc.iop(term)
+    return _OPS[key]
+
+
 def make_cases(rng, tier):
+    _OPS.clear()
     schemas = [[K(1)], [K(1), K(2)], [K(1), N(1)]] + ([[K(1), K(2), N(1)]] if tier == "thorough" else [])
     cases = []
     for cols in schemas:
@@ -109,7 +122,7 @@ def make_cases(rng, tier):
         REG.names["L1"] = 1
         for cur in op_menu(cols, fresh_k, more_tags=[fresh_n]):
             try:
-                current = enc.iop(cur).apply(leaf)
+                current = shared_op(cur).apply(leaf)
             except Exception:  # noqa: BLE001
                 continue
             if not isinstance(current, dr.UnaryOperationRelation):
@@ -127,7 +140,7 @@ def make_cases(rng, tier):
                 env = []
                 try:
                     if new[0] == "un":
-                        new_obj, _pe = enc.iop(new[1])._begin_apply(current, None)
+                        new_obj, _pe = shared_op(new[1])._begin_apply(current, None)
                         if isinstance(new_obj, dr.Identity):
                             continue
                     else:
